@@ -55,11 +55,20 @@ func verifCfgText(c *Config) string {
 	return t
 }
 
+// as yaml.Unmarshal does: only the sections present in the document are assigned (an absent
+// section leaves the destination's field as it was), and a document with a type error further
+// down has still filled in what decoded before the error is returned
 func verifYAMLUnmarshal(data []byte, out any) error {
+	c := out.(*Config)
+	if verifCfgNext.cfg.Services != nil {
+		c.Services = verifCfgNext.cfg.Services
+	}
+	if verifCfgNext.cfg.Keys != nil {
+		c.Keys = verifCfgNext.cfg.Keys
+	}
 	if verifCfgNext.parseErr {
 		return errors.New("injected parse fault")
 	}
-	*(out.(*Config)) = verifCfgNext.cfg
 	return nil
 }
 
@@ -279,8 +288,39 @@ func verifListening(cfg *Config, l verifLn) bool {
 	return false
 }
 
+// the services view of a configuration: each legacy port is a service of its own with a TCP and
+// a UDP listener on that port and the keys listed for it
+func verifEquivalent(cfg *Config) *Config {
+	if len(cfg.Keys) == 0 {
+		return cfg
+	}
+	eq := &Config{Services: append([]ServiceConfig{}, cfg.Services...)}
+	var ports []int
+	for _, k := range cfg.Keys {
+		seen := false
+		for _, p := range ports {
+			seen = seen || p == k.Port
+		}
+		if !seen {
+			ports = append(ports, k.Port)
+		}
+	}
+	for _, port := range ports {
+		var sc ServiceConfig
+		sc.Listeners = []ListenerConfig{{listenerTypeTCP, "127.0.0.1:" + strconv.Itoa(port)}, {listenerTypeUDP, "127.0.0.1:" + strconv.Itoa(port)}}
+		for _, k := range cfg.Keys {
+			if k.Port == port {
+				sc.Keys = append(sc.Keys, k.KeyConfig)
+			}
+		}
+		eq.Services = append(eq.Services, sc)
+	}
+	return eq
+}
+
 // checks that the running server behaves exactly like cfg on all candidate listeners and keys
 func verifCheckState(tag string, sm *verifSvcMetrics, cfg *Config, lns []verifLn, keys []verifK) {
+	cfg = verifEquivalent(cfg)
 	for _, l := range lns {
 		want := verifListening(cfg, l)
 		for _, k := range keys {
@@ -290,6 +330,10 @@ func verifCheckState(tag string, sm *verifSvcMetrics, cfg *Config, lns []verifLn
 				up, auth, id = verifProbeTCP(sm, l.port, k)
 			} else {
 				up, auth, id = verifProbeUDP(sm, l.addr(), k)
+				if !up {
+					// a legacy port is bound on every address
+					up, auth, id = verifProbeUDP(sm, ":"+strconv.Itoa(l.port), k)
+				}
 			}
 			verifAssert(tag+".listening-iff-configured", up == want)
 			if !up {
@@ -528,6 +572,16 @@ func VH_C11_retain() {
 		verifSvc([]verifLn{verifL1T, verifL1U}, verifKC("new", verifKeys[0]), verifKC("extra", verifKeys[2])),
 		verifSvc([]verifLn{verifL2T}, verifKC("other", verifKeys[1])),
 	}}
+	after := []verifLn{verifL1T, verifL1U, verifL2T}
+	switch verifChoice("new-config-shape", 3) {
+	case 1:
+		// the new configuration lists the retained key a second time, under another id
+		g2.Services[0].Keys = append(g2.Services[0].Keys, verifKC("new-alias", verifKeys[0]))
+	case 2:
+		// the retained service gains further listeners of the same types, after the retained ones
+		g2.Services[0] = verifSvc([]verifLn{verifL1T, verifL1U, verifL3T, verifL2U}, verifKC("new", verifKeys[0]), verifKC("extra", verifKeys[2]))
+		after = append(after, verifL3T, verifL2U)
+	}
 	verifAssert("C11.first-load-ok", verifLoadCfg(s, &verifCfgStep{cfg: g1}) == nil)
 	gen0 := service.VerifPacketSocketGen(verifL1U.addr())
 	// a client connects before the reload and stays silent until after it
@@ -583,7 +637,7 @@ func VH_C11_retain() {
 	sm.mu.Unlock()
 	verifAssert("C11.early-served-after-reload", n == 1 && auth && id == "old")
 	// new connections get the new configuration
-	verifCheckState("C11.after-reload", sm, &g2, []verifLn{verifL1T, verifL1U, verifL2T}, verifKeys)
+	verifCheckState("C11.after-reload", sm, &g2, after, verifKeys)
 	verifAssert("C11.stop-ok", s.Stop() == nil)
 	verifQuiesce()
 	verifReach("C11.done", true)
@@ -663,10 +717,17 @@ func VH_C07_process_wide() {
 	sm := &verifSvcMetrics{}
 	const history = 2
 	s := verifNewServerHistory(sm, history)
+	// the services' listener lists in any shape and order (TCP only, TCP then UDP, UDP then TCP)
+	shapes := [][2][]verifLn{
+		{{verifL1T}, {verifL2T}},
+		{{verifL1T, verifL1U}, {verifL2U, verifL2T}},
+		{{verifL1U, verifL1T}, {verifL2T}},
+		{{verifL1U, verifL1T}, {verifL2U, verifL2T}},
+	}[verifChoice("listener-shapes", 4)]
 	cfg := Config{Services: []ServiceConfig{
 		// the same access key (id, cipher, secret) offered by two services
-		verifSvc([]verifLn{verifL1T}, verifKC("shared", verifKeys[0])),
-		verifSvc([]verifLn{verifL2T}, verifKC("shared", verifKeys[0])),
+		verifSvc(shapes[0], verifKC("shared", verifKeys[0])),
+		verifSvc(shapes[1], verifKC("shared", verifKeys[0])),
 	}}
 	verifAssert("C07.wide.load-ok", verifLoadCfg(s, &verifCfgStep{cfg: cfg}) == nil)
 	n := 0
@@ -928,4 +989,39 @@ func VH_C11_same_id_two_ciphers_across_reload() {
 	verifAssert("C11.two-ciphers.stop-ok", s.Stop() == nil)
 	verifQuiesce()
 	verifReach("C11.two-ciphers.done", true)
+}
+
+
+// C10: top-level sections come and go between files (legacy keys only, services only, a file
+// with neither), with a malformed file in between: what runs is exactly the last file that
+// loaded, nothing of an earlier or of a failed file
+func VH_C10_sections_come_and_go() {
+	sm := &verifSvcMetrics{}
+	s := verifNewServer(sm)
+	all := []verifLn{verifL1T, verifL1U, verifL2T, verifL2U, verifL3T, {true, 9204}, {false, 9204}}
+	legacy := Config{Keys: []LegacyKeyServiceConfig{{KeyConfig: verifKC("old", verifKeys[0]), Port: verifL1T.port}}}
+	verifAssert("C10.sections.first-load-ok", verifLoadCfg(s, &verifCfgStep{cfg: legacy}) == nil)
+	verifCheckState("C10.sections.after-legacy-file", sm, &legacy, all, verifKeys)
+	if verifFlag("malformed-file-in-between") {
+		// a file whose legacy section is fine and whose services section does not decode
+		bad := Config{Keys: []LegacyKeyServiceConfig{{KeyConfig: verifKC("bad", verifKeys[1]), Port: 9204}},
+			Services: []ServiceConfig{verifSvc([]verifLn{verifL3T}, verifKC("bad-2", verifKeys[1]))}}
+		verifAssert("C10.sections.malformed-file-refused", verifLoadCfg(s, &verifCfgStep{cfg: bad, parseErr: true}) != nil)
+		verifCheckState("C10.sections.after-malformed-file", sm, &legacy, all, verifKeys)
+	}
+	services := Config{Services: []ServiceConfig{verifSvc([]verifLn{verifL2T, verifL2U}, verifKC("new", verifKeys[2]))}}
+	verifAssert("C10.sections.services-file-ok", verifLoadCfg(s, &verifCfgStep{cfg: services}) == nil)
+	verifCheckState("C10.sections.after-services-only-file", sm, &services, all, verifKeys)
+	if verifFlag("back-to-legacy") {
+		legacy2 := Config{Keys: []LegacyKeyServiceConfig{{KeyConfig: verifKC("old2", verifKeys[1]), Port: verifL3T.port}}}
+		verifAssert("C10.sections.legacy-again-ok", verifLoadCfg(s, &verifCfgStep{cfg: legacy2}) == nil)
+		verifCheckState("C10.sections.after-legacy-only-file", sm, &legacy2, all, verifKeys)
+	} else {
+		// a file with neither section: nothing is served any more
+		verifAssert("C10.sections.empty-file-ok", verifLoadCfg(s, &verifCfgStep{}) == nil)
+		verifCheckState("C10.sections.after-empty-file", sm, &Config{}, all, verifKeys[:1])
+	}
+	verifAssert("C10.sections.stop-ok", s.Stop() == nil)
+	verifQuiesce()
+	verifReach("C10.sections.done", true)
 }
